@@ -174,9 +174,11 @@ func (w *scribbleWorld) Gen(seed uint64, tier string) *Plan {
 	}
 	for id := first; id < n; id++ {
 		var op Op
-		switch r.Weighted(12, 3, 3, 3, 2, 1) {
+		switch r.Weighted(12, 3, 3, 3, 2, 1, 3) {
 		case 0:
 			op = s.GenOp(r, id, c)
+		case 6: // take the slices and overwrite them at once; nothing is observed before the next operation
+			op = Op{ID: id, N: "SnapScribbleNow", C: 1}
 		case 1:
 			op = Op{ID: id, N: "Snap", C: 1}
 		case 2:
@@ -207,7 +209,8 @@ func (w *scribbleWorld) Exec(p *Plan, st *RunStats) *Violation {
 	if sc, ok := s.(Scribbler); ok {
 		sc.SetScribble(true)
 	}
-	o := NewOracle("C16", "C16")
+	// "never changes the container": every observer of the other properties is asked, not only Values()
+	o := NewOracle("C16", append([]string{"C16"}, followTags...)...)
 	o.Kind = p.Cfg.Kind
 	var snaps []*snapshot
 	scribbles := 0
@@ -227,6 +230,14 @@ func (w *scribbleWorld) Exec(p *Plan, st *RunStats) *Violation {
 				if len(snaps) > 16 {
 					snaps = snaps[len(snaps)-16:]
 				}
+			case "SnapScribbleNow":
+				for _, sn := range takeSnapshots(s.Real(), op.ID) {
+					if sn.slice.Len() > 0 || sn.slice.Cap() > 0 {
+						scribbles++
+						st.Fault("scribble-returned-slice")
+					}
+					scribbleOn(sn)
+				}
 			case "ScribbleSnap":
 				for _, sn := range snaps {
 					if !sn.scribbled {
@@ -237,7 +248,9 @@ func (w *scribbleWorld) Exec(p *Plan, st *RunStats) *Violation {
 						scribbleOn(sn)
 					}
 				}
-				same("writing to slices returned by Values()/Keys()")
+				if op.ID%2 == 0 { // (every other time nothing is observed before the next operation)
+					same("writing to slices returned by Values()/Keys()")
+				}
 			case "CheckSnap":
 				for _, sn := range snaps {
 					if !sn.scribbled && !sameSlice(sn.slice, sn.copy) {
